@@ -15,6 +15,75 @@ pub struct Doc {
     pub text: String,
     pub ends: Option<Vec<usize>>,
     pub class: &'static str,
+    /// `Some` = the reader is fed these bytes (UTF-16 with BOM) instead of `text` as UTF-8
+    pub wire: Option<Wire>,
+}
+
+#[derive(Clone, Debug)]
+pub struct Wire {
+    pub enc: &'static str,
+    pub bytes: Vec<u8>,
+    pub ends: Option<Vec<usize>>,
+}
+
+pub fn utf16_bytes(text: &str, le: bool) -> Vec<u8> {
+    let mut out = Vec::with_capacity(2 + text.len() * 2);
+    let push = |u: u16, out: &mut Vec<u8>| out.extend_from_slice(&if le { u.to_le_bytes() } else { u.to_be_bytes() });
+    push(0xFEFF, &mut out);
+    for u in text.encode_utf16() {
+        push(u, &mut out);
+    }
+    out
+}
+
+impl Doc {
+    /// The same document sent as UTF-16 (LE/BE) with a byte-order mark.
+    pub fn as_utf16(&self, le: bool) -> Doc {
+        let text = self.text.trim_start_matches('\u{FEFF}').to_string();
+        let shift = self.text.len() - text.len();
+        let ends = self.ends.as_ref().map(|v| v.iter().map(|e| 2 + 2 * text[..e.saturating_sub(shift).min(text.len())].encode_utf16().count()).collect());
+        let bytes = utf16_bytes(&text, le);
+        Doc {
+            ends: self.ends.as_ref().map(|v| v.iter().map(|e| e.saturating_sub(shift)).collect()),
+            text,
+            class: self.class,
+            wire: Some(Wire { enc: if le { "utf-16le" } else { "utf-16be" }, bytes, ends }),
+        }
+    }
+    pub fn data(&self) -> &[u8] {
+        match &self.wire {
+            Some(w) => &w.bytes,
+            None => self.text.as_bytes(),
+        }
+    }
+    /// Document end offsets in the bytes the reader sees.
+    pub fn wire_ends(&self) -> Option<&Vec<usize>> {
+        match &self.wire {
+            Some(w) => w.ends.as_ref(),
+            None => self.ends.as_ref(),
+        }
+    }
+    /// The text the decoder can have produced from the first `upto` wire bytes, and the index into it
+    /// that corresponds to `upto` (for UTF-8 the index may fall inside a character).
+    pub fn visible(&self, upto: usize) -> (std::borrow::Cow<'_, str>, usize) {
+        match &self.wire {
+            None => (std::borrow::Cow::Borrowed(self.text.as_str()), upto.min(self.text.len())),
+            Some(w) => {
+                let le = w.enc == "utf-16le";
+                let upto = upto.min(w.bytes.len());
+                let units: Vec<u16> = w.bytes[2.min(upto)..upto]
+                    .chunks_exact(2)
+                    .map(|c| if le { u16::from_le_bytes([c[0], c[1]]) } else { u16::from_be_bytes([c[0], c[1]]) })
+                    .collect();
+                let s: String = char::decode_utf16(units).filter_map(|r| r.ok()).collect();
+                let n = s.len();
+                (std::borrow::Cow::Owned(s), n)
+            }
+        }
+    }
+    pub fn enc_name(&self) -> &'static str {
+        self.wire.as_ref().map_or("utf-8", |w| w.enc)
+    }
 }
 
 const LEAVES: &[Leaf] = &[
@@ -116,7 +185,7 @@ pub fn sweep_doc(seed: u64, i: usize) -> Doc {
                 text = text.trim_end().to_string();
             }
             let e = text.trim_end().len();
-            Doc { text, ends: Some(vec![e]), class: "dangerous-single" }
+            Doc { text, ends: Some(vec![e]), class: "dangerous-single", wire: None }
         }
         2 | 3 => {
             // streams x --- y (--- z …): the prefix up to any separator is a complete stream
@@ -142,13 +211,13 @@ pub fn sweep_doc(seed: u64, i: usize) -> Doc {
                 text.push_str(&body);
                 ends.push(start + body.trim_end().len());
             }
-            Doc { text, ends: Some(ends), class: "dangerous-stream" }
+            Doc { text, ends: Some(ends), class: "dangerous-stream", wire: None }
         }
         4 | 5 => {
             let text = tree_body(&mut rng, brk);
             let e = text.trim_end().len();
             let single = !is_nullish_body(&text);
-            Doc { text, ends: if single { Some(vec![e]) } else { None }, class: "generated-tree" }
+            Doc { text, ends: if single { Some(vec![e]) } else { None }, class: "generated-tree", wire: None }
         }
         6 => {
             // flow documents: no proper prefix is complete
@@ -164,7 +233,7 @@ pub fn sweep_doc(seed: u64, i: usize) -> Doc {
                 text.push_str(brk);
             }
             let e = text.trim_end().len();
-            Doc { text, ends: Some(vec![e]), class: "flow" }
+            Doc { text, ends: Some(vec![e]), class: "flow", wire: None }
         }
         _ => {
             // special shapes
@@ -194,7 +263,7 @@ pub fn sweep_doc(seed: u64, i: usize) -> Doc {
                 "a:\n  - 1\n  - 2\nb:\n  c: d\n",
             ];
             let s = specials[(i / 8) % specials.len()];
-            Doc { text: s.to_string(), ends: None, class: "special" }
+            Doc { text: s.to_string(), ends: None, class: "special", wire: None }
         }
     }
 }
@@ -216,7 +285,7 @@ pub fn large_doc(seed: u64, i: usize) -> Doc {
             text.push_str(&body);
             ends.push(start + body.trim_end().len());
         }
-        Doc { text, ends: Some(ends), class: "large-stream" }
+        Doc { text, ends: Some(ends), class: "large-stream", wire: None }
     } else {
         let mut t = String::new();
         let mut k = 0;
@@ -225,7 +294,7 @@ pub fn large_doc(seed: u64, i: usize) -> Doc {
             k += 1;
         }
         let e = t.trim_end().len();
-        Doc { text: t, ends: Some(vec![e]), class: "large-single" }
+        Doc { text: t, ends: Some(vec![e]), class: "large-single", wire: None }
     }
 }
 
@@ -308,6 +377,75 @@ pub struct Record {
     pub tuple: (i8, char, String),
     pub empty_seq: Vec<u8>,
     pub empty_map: BTreeMap<String, String>,
+}
+
+/// Shared nodes: the serializer emits `&a1` at the first use and `*a1` afterwards.
+#[derive(Serialize, Clone, Debug)]
+pub struct Graph {
+    pub first: serde_saphyr::RcAnchor<Inner>,
+    pub again: serde_saphyr::RcAnchor<Inner>,
+    pub list: Vec<serde_saphyr::RcAnchor<Inner>>,
+    pub arc: serde_saphyr::ArcAnchor<Vec<String>>,
+    pub arc_again: serde_saphyr::ArcAnchor<Vec<String>>,
+    pub nested: BTreeMap<String, serde_saphyr::RcAnchor<Inner>>,
+    pub plain: Inner,
+}
+
+/// Layout wrappers and forced block scalars.
+#[derive(Serialize, Clone, Debug)]
+pub struct Wrapped {
+    pub lit: serde_saphyr::LitString,
+    pub lit_keep: serde_saphyr::LitString,
+    pub fold: serde_saphyr::FoldString,
+    pub commented: serde_saphyr::Commented<i32>,
+    pub flow_seq: serde_saphyr::FlowSeq<Vec<i32>>,
+    pub flow_map: serde_saphyr::FlowMap<BTreeMap<String, i32>>,
+    pub spaced: serde_saphyr::SpaceAfter<Vec<String>>,
+    pub seq_of_lit: Vec<serde_saphyr::LitString>,
+    pub tail: String,
+}
+
+#[derive(Serialize, Clone, Debug)]
+#[serde(untagged)]
+pub enum AnyRec {
+    R(Record),
+    G(Graph),
+    W(Wrapped),
+}
+
+pub fn any_records() -> Vec<AnyRec> {
+    use serde_saphyr::{ArcAnchor, Commented, FlowMap, FlowSeq, FoldString, LitString, RcAnchor, SpaceAfter};
+    let mut out: Vec<AnyRec> = records().into_iter().map(AnyRec::R).collect();
+    let shared = std::rc::Rc::new(Inner { id: 7, label: "shared é".into(), flags: vec![true, false] });
+    let other = std::rc::Rc::new(Inner { id: 8, label: "other: #x".into(), flags: vec![] });
+    let arc = std::sync::Arc::new(vec!["p".to_string(), "multi\nline\n".to_string()]);
+    let mut nested = BTreeMap::new();
+    nested.insert("n1".to_string(), RcAnchor(shared.clone()));
+    nested.insert("n2".to_string(), RcAnchor(other.clone()));
+    out.push(AnyRec::G(Graph {
+        first: RcAnchor(shared.clone()),
+        again: RcAnchor(shared.clone()),
+        list: vec![RcAnchor(other.clone()), RcAnchor(shared.clone()), RcAnchor(other.clone())],
+        arc: ArcAnchor(arc.clone()),
+        arc_again: ArcAnchor(arc),
+        nested,
+        plain: Inner { id: 9, label: "unshared".into(), flags: vec![false] },
+    }));
+    let mut fm = BTreeMap::new();
+    fm.insert("a".to_string(), 1);
+    fm.insert("b c".to_string(), -2);
+    out.push(AnyRec::W(Wrapped {
+        lit: LitString("line one\nline two é\n".into()),
+        lit_keep: LitString("keep\n\n\n".into()),
+        fold: FoldString("a long folded paragraph that should be wrapped by the serializer at the configured width because it keeps going and going and going and going\n\nsecond paragraph\n".into()),
+        commented: Commented(42, "the answer é".into()),
+        flow_seq: FlowSeq(vec![1, 2, 3]),
+        flow_map: FlowMap(fm),
+        spaced: SpaceAfter(vec!["x".into(), "y: z".into()]),
+        seq_of_lit: vec![LitString("  indented first line\nnext\n".into()), LitString("no trailing newline".into())],
+        tail: "end".into(),
+    }));
+    out
 }
 
 pub fn records() -> Vec<Record> {
